@@ -239,6 +239,8 @@ class NativeContract(object):
     def sample_inputs(self, rng, limit):
         """ finite list of input vectors from the contract's domains (product if small, random otherwise) """
         out = []
+        if self.decl.get('no_native'):
+            return out
         dom_fn = self.decl.get('domain')
         if dom_fn is not None:
             for vec in dom_fn(rng):
